@@ -143,6 +143,15 @@ Fixpoint char_index (hay : text) (b : nat) : option nat :=
   | _, c :: hay' => if ulen c <=? b then option_map S (char_index hay' (b - ulen c)) else None
   end.
 
+(* the known class of find_text_nocase: some character of the searched text lower-cases to
+   something of another UTF-8 length (or to several characters) *)
+Definition len_pres (lc : N -> text) (c : N) : bool :=
+  match lc c with
+  | [c'] => ulen c' =? ulen c
+  | _ => false
+  end.
+Definition Known_C07_nocase_len (lc : N -> text) (hay : text) : bool := negb (forallb (len_pres lc) hay).
+
 (* find_text_sequence *)
 Fixpoint first_occ (nd hay : text) : option nat :=
   if prefixb nd hay then Some 0
